@@ -77,6 +77,17 @@ Proof.
 Qed.
 Print Assumptions C09_accepted_programs_never_crash.
 
+(* The whole of Run: for every source text Compile accepts (parse_source, then compile_ast), every text and every step
+   budget, running all its commands - searches, replacers, transforms - never crashes, PROVIDED the program's process code
+   (the predicates of stored patterns and the transforms) does not crash by itself.  Every crash of an accepted program
+   comes from its process code; the two refuted statements below are the two ways process code does crash. *)
+From Proofs Require RunSafe.
+Theorem C09_run_never_crashes_unless_process_code_does :
+  forall src cs bcs, Parser.parse_source src = Parser.FOk cs -> Forall RunSafe.procs_ok_c cs -> compile_ast cs = GOk bcs ->
+  forall fuel text w, run_commands fuel text bcs <> RCrash w.
+Proof. exact RunSafe.run_never_crashes_lemma. Qed.
+Print Assumptions C09_run_never_crashes_unless_process_code_does.
+
 (* non-vacuity: {at least 0 ('a' = x) named n  s  x} = s  - a named loop, a left-recursive call without a guard and a
    back-reference: well formed, so it never crashes (it never terminates either) *)
 Definition ex9_body : rx :=
